@@ -1,6 +1,217 @@
-/- stub: property C16 has no model driver yet -/
-namespace ActixModel.Drv.C16
+import ActixModel.Util
+import ActixModel.Model.Files
+import ActixModel.Model.Range
+/-
+Line-protocol driver for C16 (see `harness/src/props/c16.rs` for the implementation side).
 
-def run (_line : String) : String := "unimplemented"
+  P h=<0|1> p=<hex utf-8>                         PathBufWrap::parse_path(p, hidden)
+  S c=<flags|-> m=<METHOD> u=<uri path text> [r=<hex Range value>] [im=<tags>] [inm=<tags>]
+    [ius=<off|bad>] [ims=<off|bad>]               one request to `Files::new("/", root)` on the fixed tree
+
+flags: h use_hidden_files, i index_file("index.html"), l show_files_listing,
+       r redirect_to_slash_directory, E use_etag(false), M use_last_modified(false), s sync reads
+tags : comma separated from E (the file's etag, strong) W (same, weak) X ("xyz") V (W/"xyz")
+       bad (unparsable item) * ; the single value `nonstr` is a header value with a byte ≥ 0x80
+dates: seconds relative to the file's modification time T0
+-/
+namespace ActixModel.Drv.C16
+open ActixModel.Util ActixModel.Files ActixModel.Range
+
+def bs (s : String) : Bytes := bytesOfString s
+
+/-- content of file `id` at index `i` (same formula in the harness) -/
+def contentByte (id i : Nat) : UInt8 := UInt8.ofNat ((i * 7 + id * 13 + (i / 251) * 3) % 256)
+
+def fileContent (id len : Nat) : Bytes := (List.range len).map (contentByte id)
+
+def cksumStep (acc : Nat) (b : UInt8) : Nat := (acc * 31 + b.toNat + 1) % 4294967296
+
+def cksum (b : Bytes) : Nat := b.foldl cksumStep 0
+
+/-- the fixed tree below the served root (kept in step with `TREE` in c16.rs) -/
+def tree : Tree := [
+  ([bs "f0"], .file 1 0),
+  ([bs "f1"], .file 2 1),
+  ([bs "f10"], .file 3 10),
+  ([bs "big.bin"], .file 4 70000),
+  ([bs "index.html"], .file 5 20),
+  ([bs "a"], .dir),
+  ([bs "a", bs "x.txt"], .file 6 5),
+  ([bs "a", bs "b"], .dir),
+  ([bs "a", bs "b", bs "y.txt"], .file 7 7),
+  ([bs "a", bs "index.html"], .file 8 12),
+  ([bs "c"], .dir),
+  ([bs "c", bs "z"], .file 9 3),
+  ([bs ".hid"], .file 10 4),
+  ([bs ".hd"], .dir),
+  ([bs ".hd", bs "h.txt"], .file 11 6),
+  ([bs "sp ce"], .file 12 8),
+  ([bs "é.txt"], .file 13 9),
+  ([bs "b\\s"], .file 14 11),
+  ([bs "%2e"], .file 15 13),
+  ([bs "..."], .file 16 14),
+  ([bs "x:y"], .file 17 15),
+  ([bs "d+e"], .file 18 17),
+  ([bs "q?x"], .file 19 18),
+  ([bs "e"], .dir),
+  ([bs "k64.bin"], .file 20 65536),
+  ([bs "k64p.bin"], .file 21 65537)
+]
+
+/-- number of entries a directory listing of `dir` shows (`Directory::is_visible`: no leading dot) -/
+def visibleChildren (t : Tree) (dir : List Bytes) : Nat :=
+  (t.filter fun e =>
+    e.1.length = dir.length + 1 && e.1.take dir.length == dir &&
+      !(startsWithByte 0x2E (e.1.getLast?.getD []))).length
+
+def hex2 (b : UInt8) : String := hexOfByte b
+
+def showErr : UriSegmentError → String
+  | .badStart c => "BadStart(" ++ hex2 c ++ ")"
+  | .badChar c => "BadChar(" ++ hex2 c ++ ")"
+  | .badEnd c => "BadEnd(" ++ hex2 c ++ ")"
+  | .notValidUtf8 => "NotValidUtf8"
+
+def hexOrDash (b : Bytes) : String := if b.isEmpty then "-" else hexOfBytes b
+
+def runP (ws : List String) : String :=
+  let hidden := kv ws "h" == some "1"
+  match (kv ws "p").bind bytesOfHex with
+  | none => "badcase"
+  | some p =>
+    if !validUtf8 p then "badcase"
+    else
+      match parsePathS hidden p with
+      | .ok buf => "ok " ++ hexOrDash buf
+      | .err e => "err " ++ showErr e
+      | .panic _ => "PANIC"
+
+/-- `http::Uri` (0.2) path characters -/
+def uriPathByte (b : UInt8) : Bool :=
+  b = 0x21 || (0x24 ≤ b && b ≤ 0x3B) || b = 0x3D || (0x40 ≤ b && b ≤ 0x5F) ||
+  (0x61 ≤ b && b ≤ 0x7A) || b = 0x7C || b = 0x7E || b = 0x22 || b = 0x7B || b = 0x7D
+
+inductive Tok where
+  | e | w | x | v | bad | star
+  deriving DecidableEq
+
+def tokOf : String → Option Tok
+  | "E" => some .e | "W" => some .w | "X" => some .x | "V" => some .v
+  | "bad" => some .bad | "*" => some .star | _ => none
+
+def fileTag : Bytes := bs "FILE"
+def otherTag : Bytes := bs "xyz"
+
+def tagOf : Tok → Option ETag
+  | .e => some ⟨false, fileTag⟩
+  | .w => some ⟨true, fileTag⟩
+  | .x => some ⟨false, otherTag⟩
+  | .v => some ⟨true, otherTag⟩
+  | _ => none
+
+/-- `Header::parse` of the `{Any / (EntityTag)+}` headers: a lone `*` is `Any`; otherwise
+`from_comma_delimited`, which drops items that do not parse; a non-string value is an error
+(`get_header` = `None`).  Result: (parsed header, header present). -/
+def parseTagHeader (v : Option String) : Option (Option TagHeader × Bool) :=
+  match v with
+  | none => some (none, false)
+  | some "nonstr" => some (none, true)
+  | some s =>
+    let toks := (s.splitOn ",").map tokOf
+    if toks.any Option.isNone then none
+    else
+      let toks := toks.filterMap id
+      if toks == [.star] then some (some .any, true)
+      else some (some (.items (toks.filterMap tagOf)), true)
+
+def t0 : Nat := 1600000000
+
+def parseDate (v : Option String) : Option (Option Nat) :=
+  match v with
+  | none => some none
+  | some "bad" => some none
+  | some s =>
+    if s.startsWith "-" then ((s.drop 1).toString.toNat?).map fun n => some (t0 - n)
+    else if s.startsWith "+" then ((s.drop 1).toString.toNat?).map fun n => some (t0 + n)
+    else s.toNat?.map fun n => some (t0 + n)
+
+def showCR (cr : Option ContentRange) : String :=
+  match cr with
+  | none => "-"
+  | some c => "bytes_" ++ toString c.first ++ "-" ++ toString c.last ++ "/" ++ toString c.total
+
+def showBody (file : Bytes) (r : Resp) : String :=
+  let (chunks, ok) := bodyOf file r
+  let all := chunks.flatten
+  "body=" ++ toString all.length ++ ":" ++ toString (cksum all) ++
+  " ch=" ++ (if chunks.isEmpty then "-" else joinWith "+" (chunks.map fun c => toString c.length)) ++
+  (if ok then "" else " bodyerr")
+
+def showResp (file : Bytes) (r : Resp) : String :=
+  match r with
+  | .full len => "200 e=- cr=- sz=" ++ toString len ++ " " ++ showBody file r
+  | .partialContent cr _ length => "206 e=- cr=" ++ showCR (some cr) ++ " sz=" ++ toString length ++ " " ++ showBody file r
+  | .notModified cr => "304 e=- cr=" ++ showCR cr ++ " sz=none " ++ showBody file r
+  | .preconditionFailed cr => "412 e=- cr=" ++ showCR cr ++ " sz=0 " ++ showBody file r
+  | .rangeNotSatisfiable total => "416 e=- cr=bytes_*/" ++ toString total ++ " sz=0 " ++ showBody file r
+  | .badRequest => "400 e=- cr=- sz=0 " ++ showBody file r
+  | .panic => "PANIC"
+
+/-- `HeaderValue::from_bytes` accepts bytes ≥ 0x20 except DEL, and TAB; `to_str` succeeds iff all
+are visible ASCII or TAB -/
+def classifyRange (v : Bytes) : Option RangeHdr :=
+  if !(v.all fun b => (0x20 ≤ b && b != 0x7F) || b = 0x09) then none
+  else if v.all fun b => (0x20 ≤ b && b < 0x7F) || b = 0x09 then some (.str v)
+  else some .notStr
+
+def plain (status : String) (e : String) : String :=
+  status ++ " e=" ++ e ++ " cr=- sz=-"
+
+def runS (ws : List String) : String :=
+  let flags := (kv ws "c").getD "-"
+  let has (c : Char) := flags.toList.contains c
+  let cfg : Config := {
+    hidden := has 'h',
+    index := if has 'i' then some (bs "index.html") else none,
+    listing := has 'l',
+    redirect := has 'r' }
+  let method := (kv ws "m").getD "GET"
+  match kv ws "u" with
+  | none => "badcase"
+  | some u =>
+    let raw := bs u
+    if !(startsWithByte 0x2F raw) || !(raw.all uriPathByte) then "baduri"
+    else
+      match parseTagHeader (kv ws "im"), parseTagHeader (kv ws "inm"), parseDate (kv ws "ius"), parseDate (kv ws "ims"),
+            (match kv ws "r" with
+             | none => some RangeHdr.absent
+             | some h => (bytesOfHex h).bind classifyRange) with
+      | some (im, _), some (inm, hasInm), some ius, some ims, some range =>
+        let path := urlPath raw
+        match serve cfg tree (method == "GET" || method == "HEAD") path (endsWithByte 0x2F path) with
+        | .methodNotAllowed => plain "405" "MethodNotAllowed"
+        | .badRequest e => plain "400" (showErr e)
+        | .notFound => plain "404" "-"
+        | .isDirectory => plain "404" "IsDirectory"
+        | .indexIsDirectory => plain "200" "IndexIsDirectory"
+        | .redirect => plain "307" ("redirect:" ++ hexOfBytes (path ++ [0x2F]))
+        | .listing dir => plain "200" ("listing:" ++ toString (visibleChildren tree dir))
+        | .panic _ => "PANIC"
+        | .file _ id len =>
+          let fmeta : FileMeta := {
+            len := len,
+            etag := if has 'E' then none else some ⟨false, fileTag⟩,
+            lastModified := if has 'M' then none else some t0 }
+          let cond : Cond := { ifMatch := im, ifNoneMatch := inm, hasIfNoneMatch := hasInm,
+                               ifUnmodifiedSince := ius, ifModifiedSince := ims }
+          showResp (fileContent id len) (intoResponse fmeta cond range)
+      | _, _, _, _, _ => "badcase"
+
+def run (line : String) : String :=
+  let ws := words line
+  match ws with
+  | "P" :: rest => runP rest
+  | "S" :: rest => runS rest
+  | _ => "badcase"
 
 end ActixModel.Drv.C16
